@@ -30,9 +30,11 @@ def lint():
     hits = []
     files = sorted(glob.glob(os.path.join(COQ, "**", "*.v"), recursive=True))
     files = [f for f in files if "/Run/" not in f]
-    files += sorted(glob.glob(os.path.join(VERIF, "work", "gen_*", "Gen", "*.v")))
     for f in files:
-        src = strip_comments(open(f).read())
+        try:
+            src = strip_comments(open(f).read())
+        except FileNotFoundError:
+            continue        # a file of another, concurrently running check
         for n, line in enumerate(src.split("\n"), 1):
             for pat in FORBIDDEN:
                 if re.search(pat, line):
